@@ -55,6 +55,31 @@ Section Api.
       + inversion H; subst. exists 1%nat. cbn [firstn map SolverFacts3.run_calls call_desc call_opts call_t fst]. rewrite E. reflexivity.
   Qed.
 
+  (* when the loop of solve() raises, it is one solve_t call — for a period of the list, from the state the completed prefix
+     left — that raised, and that period carries the status its policy prescribes: 'F' with NonConvergenceError
+     (failures='raise'), 'E' with SolutionError (errors='raise': non-finite value or exception in a pass), or nothing recorded
+     (exception in a hook, pre-existing non-finite values, exception in a pass under another policy, IndexError, ValueError) *)
+  Theorem run_periods_raise_status d o : forall ps s acc s' e,
+    run_periods d o ps s acc = (s', Raise e) ->
+    exists t lab sj, In (t, lab) ps /\ solve_t_M d o t sj = (s', Raise e) /\
+      ((status s' = status sj /\ iters s' = iters sj) \/
+       exists p x k, py_pos (List.length (status sj)) t = Some p /\
+         status s' = upd p x (status sj) /\ iters s' = upd p (Z.of_nat k) (iters sj) /\
+         ((x = Failed /\ e = NonConvergenceError /\ fail_raise o = true) \/
+          (x = ErrorSt /\ errors o = ERaise /\ exists c, e = SolutionError c))).
+  Proof.
+    induction ps as [|[t lab] ps IH]; intros s acc s' e H; cbn [SolveAll.run_periods] in H; [discriminate|].
+    destruct (solve_t_M d o t s) as [s1 [b|e1]] eqn:E.
+    - destruct (IH _ _ _ _ H) as (t' & lab' & sj & Hin & Hrest). exists t', lab', sj. split; [right; exact Hin|exact Hrest].
+    - inversion H; subst. exists t, lab, s. split; [left; reflexivity|]. split; [exact E|].
+      destruct (solve_t_status_shape num sub absf ltb isfin zero ev before after d o t s s' (Raise e) E)
+        as [(Hs & Hi & _)|(p & x & k & Hp & Hs & Hi & Hx)]; [left; auto|].
+      right. exists p, x, k. split; [exact Hp|]. split; [exact Hs|]. split; [exact Hi|].
+      destruct Hx as [[_ Hr]|[[-> [Hr|[Hr Hf]]]|[(_ & _ & Hr)|(-> & He & c & Hr)]]]; try discriminate.
+      + left. inversion Hr; subst. auto.
+      + right. inversion Hr; subst. eauto.
+  Qed.
+
   Lemma api1_as_calls c s :
     exists cs, run_api1 c s = run_calls cs s /\ forall c', In c' cs -> call_opts num c' = api_opts c.
   Proof.
